@@ -261,6 +261,27 @@ fn collect_items(items: &[Item], file: &str, module: &str, c: &mut Collected) {
                 }
                 c.trait_supers.insert(t.ident.to_string(), t.supertraits.iter().map(|b| clean(&ts(b))).collect::<Vec<_>>().join(" + "));
                 let mut methods = vec![];
+                // `trait NonFungibleBurnable: NonFungibleToken<ContractType: BurnableOverrides>`: the supertrait clause
+                // bounds the inherited associated type; `Self::ContractType::m` in this trait's defaults goes through it
+                for sb in &t.supertraits {
+                    if let TypeParamBound::Trait(tb) = sb {
+                        if let Some(ls) = tb.path.segments.last() {
+                            if let PathArguments::AngleBracketed(ab) = &ls.arguments {
+                                for ga in &ab.args {
+                                    if let GenericArgument::Constraint(cn) = ga {
+                                        for b in &cn.bounds {
+                                            if let TypeParamBound::Trait(cb) = b {
+                                                c.assoc_bounds
+                                                    .insert((t.ident.to_string(), cn.ident.to_string()), cb.path.segments.last().unwrap().ident.to_string());
+                                                break;
+                                            }
+                                        }
+                                    }
+                                }
+                            }
+                        }
+                    }
+                }
                 for ti in &t.items {
                     if let TraitItem::Type(at) = ti {
                         for b in &at.bounds {
@@ -459,6 +480,8 @@ fn is_client_ctor(e: &Expr) -> bool {
 struct PathNorm<'a> {
     assoc: &'a BTreeMap<String, String>,
     sites: usize,
+    /// only substitute `Self::<Assoc>`, leave module qualifiers alone (early pass before the effect inference)
+    assoc_only: bool,
 }
 fn is_module_seg(s: &str) -> bool {
     const PRIMS: [&str; 17] = ["i8", "i16", "i32", "i64", "i128", "isize", "u8", "u16", "u32", "u64", "u128", "usize", "bool", "char", "str", "f32", "f64"];
@@ -481,6 +504,9 @@ impl<'a> VisitMut for PathNorm<'a> {
                     self.sites += 1;
                 }
             }
+        }
+        if self.assoc_only {
+            return;
         }
         let n = p.segments.len();
         if n >= 2 {
@@ -932,6 +958,29 @@ impl<'a> VisitMut for Rw<'a> {
     }
 
     fn visit_expr_mut(&mut self, e: &mut Expr) {
+        // macro-expanded `symbol_short!("x")` is the block `{ const SYMBOL: Symbol = Symbol::short("x"); SYMBOL }`:
+        // back to the form the un-expanded sources are translated to (`Symbol::vx_short("x")`, same value)
+        if let Expr::Block(b) = e {
+            if b.label.is_none() && b.block.stmts.len() == 2 {
+                if let (Stmt::Item(Item::Const(c)), Stmt::Expr(Expr::Path(tail), None)) = (&b.block.stmts[0], &b.block.stmts[1]) {
+                    if tail.path.is_ident(&c.ident) {
+                        if let Expr::Call(call) = &*c.expr {
+                            if let Expr::Path(f) = &*call.func {
+                                let segs: Vec<String> = f.path.segments.iter().map(|s| s.ident.to_string()).collect();
+                                if segs.len() >= 2 && segs[segs.len() - 2] == "Symbol" && segs[segs.len() - 1] == "short" && call.args.len() == 1 {
+                                    if let Expr::Lit(ExprLit { lit: Lit::Str(ls), .. }) = &call.args[0] {
+                                        let ls = ls.clone();
+                                        *e = parse_quote!(Symbol::vx_short(#ls));
+                                        self.site("T13-symbol-short");
+                                        return;
+                                    }
+                                }
+                            }
+                        }
+                    }
+                }
+            }
+        }
         // T15: `Vec::from_iter(env, ITER.map(|p| BODY))` -> `{ let mut v = Vec::new(env); for p in ITER { v.push_back(BODY); } v }`.
         // This is the SDK's own definition of `from_iter` (`new` + `extend` = `for item in iter { push_back(item) }`) with
         // `Iterator::map`'s `next` (apply the closure to the next inner item) inlined; needed because Verus has no closures
@@ -1369,7 +1418,7 @@ fn main() {
                 g.file = format!("{} (default of trait {} for {})", f.file, tr, ty);
                 let mut ar = AssocResolver { supers: &c.trait_supers, tr: &tr, assoc: &assoc, bounds: &c.assoc_bounds, fns: &c.fns, need: vec![], errors: vec![] };
                 ar.visit_block_mut(&mut g.block);
-                let mut pn = PathNorm { assoc: &assoc, sites: 0 };
+                let mut pn = PathNorm { assoc: &assoc, sites: 0, assoc_only: false };
                 pn.visit_signature_mut(&mut g.sig);
                 for e in ar.errors {
                     errors.push(format!("{}: {}", g.key, e));
@@ -1446,6 +1495,31 @@ fn main() {
             let k = s.split('#').last().unwrap();
             if !seen.contains(k) {
                 errors.push(format!("lost anchor: function {} not found", s));
+            }
+        }
+    }
+    // `Self::Assoc::m(..)` written in a trait-impl method (not an instantiated default: those go through the bound, see T8)
+    // names the associated type set in this impl or in the impl of a supertrait for the same type; the impl type is
+    // concrete there, so the path resolves like `Base::burn` (inherent first).  Substituted before the effect inference.
+    for f in selected.iter_mut() {
+        if let (Some(tn), Some(ty), false) = (f.trait_name.clone(), f.impl_type.clone(), f.in_trait_decl) {
+            if f.file.contains("(default of trait ") {
+                continue;
+            }
+            let mut assoc: BTreeMap<String, String> = BTreeMap::new();
+            for t in c.trait_impls.iter().filter(|t| t.type_name == ty && t.trait_name != tn) {
+                for (k, v) in &t.assoc {
+                    assoc.entry(k.clone()).or_insert(v.clone());
+                }
+            }
+            for t in c.trait_impls.iter().filter(|t| t.type_name == ty && t.trait_name == tn) {
+                for (k, v) in &t.assoc {
+                    assoc.insert(k.clone(), v.clone());
+                }
+            }
+            if !assoc.is_empty() {
+                let mut pn = PathNorm { assoc: &assoc, sites: 0, assoc_only: true };
+                pn.visit_block_mut(&mut f.block);
             }
         }
     }
@@ -1563,7 +1637,7 @@ fn main() {
             (Some(tn), Some(ty)) => c.trait_impls.iter().find(|t| &t.trait_name == tn && &t.type_name == ty).map(|t| &t.assoc).unwrap_or(&empty_assoc),
             _ => &empty_assoc,
         };
-        let mut pn = PathNorm { assoc: assoc_here, sites: 0 };
+        let mut pn = PathNorm { assoc: assoc_here, sites: 0, assoc_only: false };
         pn.visit_block_mut(&mut block);
         let res = std::panic::catch_unwind(std::panic::AssertUnwindSafe(|| {
             rw.visit_block_mut(&mut block);
